@@ -19,3 +19,13 @@ where
     &self.simple_data_reader
   }
 }
+
+impl<D: Keyed + 'static, DA: DeserializerAdapter<D> + DefaultDecoder<D>> DataReader<D, DA>
+where
+  D::K: std::fmt::Debug,
+{
+  /// What every access form does first: move pending changes into the reader's own cache.
+  pub(crate) fn verif_fill(&mut self) -> Result<(), String> {
+    self.fill_and_lock_local_datasample_cache().map_err(|e| format!("{e:?}"))
+  }
+}
